@@ -22,6 +22,7 @@ META = dict(
 SKELS = {
     "one": [dict(plen=5, tags=[(0xC1, 2)])],
     "two": [dict(plen=3, tags=[(0xC3, 1)]), dict(plen=4, tags=[(0xC1, 1), (0xC8, 2)])],
+    "same2": [dict(plen=3, tags=[(0xC3, 1)]), dict(plen=3, tags=[(0xC3, 1)])],
     "dup": [dict(plen=2, tags=[(0xC1, 1), (0xC8, 1)])],
     "dup0": [dict(plen=2, tags=[(0xC1, 0), (0xC8, 1)])],  # first tag value empty (falsy)
     "dup00": [dict(plen=2, tags=[(0xC1, 0), (0xC8, 0)])],
@@ -54,6 +55,7 @@ def jobs(tier, seed):
         J.append(dict(name="struct:%s:trailing" % skel, kind="trailing", skel=skel, timeout=900, cost=50))
         J.append(dict(name="struct:%s:unedited" % skel, kind="fields", skel=skel, fields=[], timeout=600, cost=20))
     J.append(dict(name="struct:two:swap-entries", kind="swap", skel="two", timeout=900, cost=100))
+    J.append(dict(name="struct:same2:payload-mac-copied-from-earlier-entry", kind="pmaccopy", skel="same2", timeout=900, cost=100))
     for sk in ("dup", "dup0", "dup00"):
         for f in ("tag_id1@0", "tag_id0@0"):
             J.append(dict(name="struct:%s:repeated-tag:%s" % (sk, f), kind="fields", skel=sk, fields=[f], tier="quick", concrete_tagvals=True, timeout=1500, cost=100))
@@ -108,7 +110,9 @@ def serialise(mac, key, comps, edits, sig=b"BF3\x00\x00", trailing=b"", order=No
         tlv = b""
         for t, (tid, val) in enumerate(tags):
             tlv += bytes([fld("tag_id%d" % t, tid), fld("tag_len%d" % t, len(val))]) + val
-        e = be(fld("adr", adr), 4) + be(fld("total", len(payload)), 4) + be(fld("actual", actual), 4) + mac(key, None, payload) + bytes([fld("desc_len", len(tlv))]) + tlv
+        pm_src = edits.get("pmac_from@%d" % i)
+        pm = mac(key, None, comps[pm_src][0] if pm_src is not None else payload)
+        e = be(fld("adr", adr), 4) + be(fld("total", len(payload)), 4) + be(fld("actual", actual), 4) + pm + bytes([fld("desc_len", len(tlv))]) + tlv
         e += mac(key, be(fld("iv_index", pos + 1), 16), e)
         ents.append(bytes([fld("entry_len", len(e))]) + e)
     canon["dir_size"], canon["sentinel"] = dir_len, 0
@@ -243,6 +247,9 @@ def run_job(job):
             vals["trailing"] = trailing
         elif kind == "swap":
             order = [1, 0]
+        elif kind == "pmaccopy":
+            # entry 1 carries the (authentic) payload MAC of entry 0 although its payload is different
+            edits["pmac_from@1"] = 0
         M.mode = "writer"
         binary, canon = serialise(mac, key, comps, edits, trailing=trailing, order=order)
         vals["binary"] = binary
@@ -323,6 +330,9 @@ def replay(job):
     edits = {k[3:]: v for k, v in w.items() if k.startswith("ed_")}
     trailing = w.get("trailing", b"") if kind == "trailing" else b""
     order = [1, 0] if kind == "swap" else None
+    if kind == "pmaccopy":
+        edits["pmac_from@1"] = 0
+        comps[1] = (bytes(b ^ 0x55 for b in comps[0][0]), comps[1][1], comps[1][2]) if comps[1][0] == comps[0][0] else comps[1]
     binary, canon = serialise(mac, key, comps, edits, trailing=trailing, order=order)
     want = validate(mac, key, binary)
     try:
